@@ -129,6 +129,8 @@ fn check_exchange_here(m: &Message<'static>, first_line: &[u8], with_sentinel: b
     }
     // classify what the environment did
     let mut write_fatal = false;
+    // an accept of zero bytes: the bus may give up with an error or ask the port again (not a failure in itself)
+    let mut write_zero = false;
     let mut read_fatal = false;
     let mut reads = 0usize;
     let mut first_read_idx: Option<usize> = None;
@@ -140,7 +142,7 @@ fn check_exchange_here(m: &Message<'static>, first_line: &[u8], with_sentinel: b
                 match got {
                     Err(io::ErrorKind::Interrupted) => {}
                     Err(_) => write_fatal = true,
-                    Ok(0) if *offered > 0 => write_fatal = true,
+                    Ok(0) if *offered > 0 => write_zero = true,
                     _ => {}
                 }
             }
@@ -157,6 +159,9 @@ fn check_exchange_here(m: &Message<'static>, first_line: &[u8], with_sentinel: b
             }
             _ => {}
         }
+    }
+    if write_zero && !write_fatal && ex.result.is_err() && ex.written != want_wire {
+        write_fatal = true; // the bus gave up after the zero-byte accept: judged like a write failure
     }
     let outcome: String;
     // 1. what was written
